@@ -43,7 +43,7 @@ type vC04hUp struct {
 	closed int
 }
 
-func (c *vC04hUp) Close() error                               { c.closed++; return nil }
+func (c *vC04hUp) Close() error { c.closed++; return nil }
 func (c *vC04hUp) CloseWithError(network.ConnErrorCode) error {
 	c.closed++
 	if vC04hCtx != nil && vC04hCtx.Err() == nil {
@@ -53,8 +53,9 @@ func (c *vC04hUp) CloseWithError(network.ConnErrorCode) error {
 }
 
 var vC04hCtx context.Context
-func (c *vC04hUp) IsClosed() bool                             { return c.closed > 0 }
-func (c *vC04hUp) RemotePeer() peer.ID                        { return "remote" }
+
+func (c *vC04hUp) IsClosed() bool      { return c.closed > 0 }
+func (c *vC04hUp) RemotePeer() peer.ID { return "remote" }
 
 type vC04hInner struct {
 	transport.GatedMaListener
